@@ -157,7 +157,8 @@ def xlat_case(cid, rng, im, b):
 
 
 def safe_to_save(im):
-    return all(s["addr"] < 2**24 and s["size"] < 2**20 for s in im.sections) and all(g["vaddr"] < 2**24 for g in im.segments)
+    return all(s["addr"] < 2**24 and s["size"] < 2**20 and s["addralign"] < 2**16 for s in im.sections) and \
+        all(g["vaddr"] < 2**24 and g["align"] < 2**16 and g["memsz"] < 2**24 for g in im.segments)
 
 
 def images(rng, tier):
